@@ -224,6 +224,21 @@ CLAIMED["C07"] = dict(
     technique="TLA+ spec (GeoJSON: encoder + total decoder) + TLC enumeration of geometries, features and JSON "
               "documents; observation checking by TLC")
 
+CLAIMED["C18"] = dict(
+    text="Model checking: Decimal!RoundOK states the property on exact integers (a float64 is mant*2^k, a literal is "
+         "digits/10^nfrac): at most d fractional digits, no trailing zero, |literal - value| <= 10^-d/2; Apalache "
+         "decides it for every literal the WKT encoder, the GeoJSON encoder and the GeoJSON bounding box write for a "
+         "palette of 40 values (decimal ties, neighbours of powers of ten, 5e-324, 1.8e308, -0, values that round to "
+         "zero or across a power of ten) plus seeded floats, for every d in 0..15. The structural half is decided by "
+         "TLC: for every tree of the WKT model the encoder's tokens with numbers blanked equal the canonical rendering "
+         "for each digit limit, and for every bbox-capable geometry of the GeoJSON model the JSON tree equals the RFC "
+         "object with a bbox member of the right arity and values, with the two options given in either order.",
+    ref="DESIGN.md 3.8, 4-C18", note="Bounded: value palette + seeded sample; trees of the two models. The literal is "
+                                     "split into sign / digits / fraction by a regular expression in the orchestrator. "
+                                     "Trusted base: " + TBX,
+    technique="TLA+ spec (Decimal!RoundOK) decided by Apalache on recorded literals with exact integers; TLA+ specs "
+              "(WKTRender, GeoJSON) + TLC for structure")
+
 NOT_YET = {}
 
 
